@@ -265,6 +265,13 @@ fn struct_init_block<'a>(input: &'a Struct, ctx: &'a ImplContext) -> TokenStream
         return TokenStream::new();
     }
 
+    // A unit struct without a type hint maps to a unit struct, unless something is given to build the counterpart from
+    if !ctx.kind.is_from() && input.unit && ctx.struct_attr.type_hint == TypeHint::Unspecified && ctx.struct_attr.update.is_none()
+        && input.attrs.ghosts_attr(&ctx.struct_attr.ty, &ctx.kind).is_none()
+    {
+        return TokenStream::new();
+    }
+
     let mut group_paths = HashMap::<String, usize>::new();
     group_paths.insert("".into(), 0);
     let mut subtree_paths = HashMap::<String, usize>::new();
